@@ -40,6 +40,11 @@ Fed == SubSeq(stream, 1, fed)
 SplitInvariant == out \o Entries(buf) = Entries(Fed)
 RemainderInvariant == Remainder(buf) = Remainder(Fed)
 BufIsSuffix == IsSuffix(buf, Fed)
+\* the linear-time checker of CbWords accepts exactly the entries of ParsePrefix
+CheckerAgrees == LET m == Match(buf, Entries(buf)) IN
+                 /\ m.ok /\ m.consumed = Consumed(buf)
+                 /\ (Entries(buf) # <<>> => ~Match(buf, Tail(Entries(buf))).ok)
+                 /\ ~Match(buf, Append(Entries(buf), <<"mk", 0, 0, 0>>)).ok
 \* an element is never consumed partially
 OnElementBoundary == Len(Fed) - Len(buf) <= Consumed(Fed)
 =============================================================================
